@@ -18,6 +18,7 @@ import (
 	"strconv"
 	"strings"
 	"sync"
+	"sync/atomic"
 	"time"
 
 	"verifharness/kit"
@@ -62,10 +63,11 @@ func (d *dropSpec) matches(tags map[string]string) bool {
 }
 
 type history struct {
-	Index int    `json:"index"`
-	Steps []step `json:"steps"`
-	Kind  string `json:"drop_kind"`
-	Young bool   `json:"young_series,omitempty"` // the dropped series was first written right before the drop
+	Index      int    `json:"index"`
+	Steps      []step `json:"steps"`
+	Kind       string `json:"drop_kind"`
+	Young      bool   `json:"young_series,omitempty"` // the dropped series was first written right before the drop
+	Concurrent bool   `json:"concurrent_drops,omitempty"`
 }
 
 func lp(pts []model.Point) []string {
@@ -155,7 +157,33 @@ func genHistory(r *rand.Rand, idx int, kind string, nbuild int, crash bool) *his
 	build(nbuild)
 	// the drop
 	d := &dropSpec{Kind: kind}
-	if kind == "series-young" {
+	if kind == "series-concurrent" {
+		// several DROP SERIES statements in flight at once (nothing serialises them between the
+		// sql node and the store): every one that is acknowledged must take effect
+		d.Kind = "series"
+		h.Kind = "series"
+		h.Concurrent = true
+		d.Mst = u.Msts[r.IntN(len(u.Msts))]
+		for round := 0; round < 4; round++ {
+			var pts []model.Point
+			var stmts []string
+			for i := 0; i < 24; i++ {
+				host := fmt.Sprintf("r%dc%02d", round, i)
+				p := model.Point{Mst: d.Mst, Tags: map[string]string{"host": host, "region": "x"}, T: u.Times[1+i%4], Fields: map[string]model.Value{}}
+				for _, f := range u.Fields {
+					p.Fields[f.Name] = kit.Value(r, f.Kind)
+				}
+				pts = append(pts, p)
+				stmts = append(stmts, "DROP SERIES FROM "+d.Mst+" WHERE host = '"+host+"'")
+			}
+			add(step{Op: "write", RP: "autogen", pts: pts})
+			add(step{Op: "settle"})
+			add(step{Op: "drop-concurrent", Stmt: strings.Join(stmts, ";"), Drop: &dropSpec{Kind: "series", Mst: d.Mst, Key: "host", Op: "=~", Val: fmt.Sprintf("^r%dc", round)}})
+		}
+		d.Key, d.Op, d.Val = "host", "=~", "^r[0-9]c"
+		d.Pred = "host =~ /^r[0-9]c/ (24 concurrent statements per round)"
+		kind = "series"
+	} else if kind == "series-young" {
 		// a series whose first write was acknowledged immediately before the drop
 		d.Kind = "series"
 		h.Kind = "series"
@@ -678,7 +706,7 @@ func (rn *runner) run(h *history, worker int) {
 	moment := "before-drop"
 	var pendingNew []model.Point
 	wit := func(i int, extra map[string]any) map[string]any {
-		x := map[string]any{"history": history{Index: h.Index, Kind: h.Kind, Young: h.Young, Steps: h.Steps[:i+1]}}
+		x := map[string]any{"history": history{Index: h.Index, Kind: h.Kind, Young: h.Young, Concurrent: h.Concurrent, Steps: h.Steps[:i+1]}}
 		for k, v := range extra {
 			x[k] = v
 		}
@@ -712,7 +740,7 @@ func (rn *runner) run(h *history, worker int) {
 			for _, p := range st.pts {
 				delete(w.mstGone, p.Mst)
 			}
-			if i < 2 || dropped {
+			if i < 2 || dropped || h.Concurrent {
 				pendingNew = append(pendingNew, st.pts...)
 			}
 			if i < 2 {
@@ -758,6 +786,28 @@ func (rn *runner) run(h *history, worker int) {
 			if !setup() {
 				return
 			}
+		case "drop-concurrent":
+			stmts := strings.Split(st.Stmt, ";")
+			var wg sync.WaitGroup
+			failed := int32(0)
+			for _, q := range stmts {
+				wg.Add(1)
+				go func(q string) {
+					defer wg.Done()
+					if _, err := s.Query(db, q, nil); err != nil {
+						atomic.AddInt32(&failed, 1)
+					}
+				}(q)
+			}
+			wg.Wait()
+			if failed > 0 {
+				c.Inconclusive("concurrent-drop-rejected", int64(failed))
+				return
+			}
+			w.applyDrop(st.Drop)
+			dropped = true
+			moment = "after-drop"
+			c.Count("concurrent-drop-statements-acknowledged", int64(len(stmts)))
 		case "drop":
 			if _, err := s.Query(db, st.Stmt, nil); err != nil {
 				c.Inconclusive("drop-rejected", 1)
@@ -840,6 +890,9 @@ func (rn *runner) run(h *history, worker int) {
 							cls = "dropped-data-still-returned"
 						} else if strings.Contains(sr.diff[0], "missing row") || strings.Contains(sr.diff[0], "misses") {
 							cls = "surviving-data-missing"
+						}
+						if h.Concurrent && cls == "dropped-data-still-returned" {
+							cls += "|concurrent-drop-statements"
 						}
 						if h.Young && cls == "dropped-data-still-returned" {
 							cls += "|series-first-written-right-before-the-drop"
@@ -986,7 +1039,7 @@ func main() {
 		c.Nontrivial("replay-b")
 		c.Finish()
 	}
-	kinds := []string{"series", "series", "series-young", "measurement", "rp", "database", "series"}
+	kinds := []string{"series", "series", "series-young", "measurement", "rp", "database", "series-concurrent"}
 	n := c.Pick(12, 80)
 	par := 8
 	sem := make(chan int, par)
